@@ -157,6 +157,9 @@ def standard(res, args, pid, prop_file, theorems, classes_note, partial=()):
     from lib import drvgen
     if pid in drvgen.SRC_THEOREMS:
         drvgen.src_obligations(res, pid)
+    if pid == "C18":
+        from lib import dbggen
+        dbggen.obligations(res)
     from lib import apigen
     if pid in apigen.API_THEOREMS:
         apigen.api_obligations(res, pid)
